@@ -58,40 +58,76 @@ def fabs (x : F) : F := Float.abs x
 def fmin (a b : F) : F := if b < a then b else a
 def huge : F := 1e300
 
-/-- `|max(G (x + s dx) - h)|` over the trial steps of stage 1 up to the accepted one: the margin of its decisions -/
+/-! ### margins of the decisions, relative to the magnitude of the terms that were summed (`Float` only, not part of
+    the model): the same model functions evaluated on absolute values give `Σ|terms|` of every residual component -/
+
+def absV (x : List F) : List F := x.map Float.abs
+
+/-- `|Q|, |c|, |A|, -|b|, |G|, -|h|`: `update`/`slack` on it with `|x|, |u|, |v|` sum the magnitudes of the terms -/
+def absP (P : Prog F) : Prog F :=
+  ⟨P.Q.map absV, absV P.c, P.A.map absV, vneg (absV P.b), P.G.map absV, vneg (absV P.h)⟩
+
+structure Scales where
+  eta : F
+  rd : F
+  rp : F
+  res : F
+
+def scalesAt (P : Prog F) (miu : F) (x u v : List F) : Scales :=
+  let Pa := absP P
+  let st := update Pa 1 miu (absV x) (absV u) (absV v) ⟨0, 0, [], [], []⟩
+  let sl := slack Pa (absV x)
+  let etaS := fabs st.eta
+  let rc := List.zipWith (fun ui gi => etaS / (miu * (P.m : F)) + fabs ui * gi) u sl
+  ⟨etaS, norm2 st.rdual, norm2 st.rprim, Float.sqrt (sumsq st.rdual + sumsq rc + sumsq st.rprim)⟩
+
+def relTo (d sc : F) : F := if sc == 0 then (if d == 0 then 0 else huge) else fabs d / sc
+
+def fmax (a b : F) : F := if a < b then b else a
+
+/-- margin of `max(G y - h) < thr`: if it holds, the closest row; otherwise the farthest of the rows that violate it -/
+def rowsMargin (P : Prog F) (y : List F) (thr : F) : F :=
+  let vals := slack P y
+  let scs := slack (absP P) (absV y)
+  let rels := List.zipWith (fun v sc => (decide (v < thr), relTo (v - thr) sc)) vals scs
+  if rels.all (·.1) then rels.foldl (fun acc r => fmin acc r.2) huge
+  else rels.foldl (fun acc r => if r.1 then acc else fmax acc r.2) 0
+
+/-- smallest relative margin over the trial steps of stage 1 up to the accepted one -/
 def stage1Margin (P : Prog F) (beta : F) (x dx : List F) : Nat → F → F → F
   | 0, _, acc => acc
   | k + 1, s, acc =>
-    match maxCoeff (slack P (move x s dx)) with
-    | none => acc
-    | some mx =>
-      let acc := fmin acc (fabs mx)
-      if mx < 0 then acc else stage1Margin P beta x dx k (s * beta) acc
+    let y := move x s dx
+    let acc := fmin acc (rowsMargin P y 0)
+    if maxLt (slack P y) 0 then acc else stage1Margin P beta x dx k (s * beta) acc
 
-/-- `|residual - (1 - alpha s) r0|` over the trial steps of stage 2 up to the accepted one -/
-def stage2Margin (P : Prog F) (mufx miu alpha beta : F) (x u v dx du dv : List F) (r0 : F) : Nat → F → St F → F → F
+/-- smallest `|residual - (1 - alpha s) r0|` relative to the magnitudes behind both sides, over the trial steps of stage 2 -/
+def stage2Margin (P : Prog F) (mufx miu alpha beta : F) (x u v dx du dv : List F) (r0 sc0 : F) : Nat → F → St F → F → F
   | 0, _, _, acc => acc
   | k + 1, s, st, acc =>
-    let st' := update P mufx miu (move x s dx) (move u s du) (move v s dv) st
+    let x' := move x s dx
+    let u' := move u s du
+    let v' := move v s dv
+    let st' := update P mufx miu x' u' v' st
     let lhs := residual st'
     let rhs := (1 - alpha * s) * r0
-    let acc := fmin acc (fabs (lhs - rhs))
-    if lhs ≤ rhs then acc else stage2Margin P mufx miu alpha beta x u v dx du dv r0 k (s * beta) st' acc
+    let acc := fmin acc (relTo (lhs - rhs) ((scalesAt P miu x' u' v').res + sc0))
+    if lhs ≤ rhs then acc else stage2Margin P mufx miu alpha beta x u v dx du dv r0 sc0 k (s * beta) st' acc
 
 def showOptF : Option F → String
   | some s => hexOfFloat s
   | none => "none"
 
-/-- the margins of `program_t::feasible` and of the status decision at `(x, st)` -/
-def doneLine (P : Prog F) (par : Params F) (x : List F) (st : St F) (status : Status) : String :=
+/-- the (relative) margins of `program_t::feasible` and of the status decision at `(x, st)`; `sc` = magnitudes of the
+    terms behind `st` -/
+def doneLine (P : Prog F) (par : Params F) (x : List F) (st : St F) (sc : Scales) (status : Status) : String :=
   let feas := feasible P par.eps2 x
-  let mgA := if P.A.isEmpty then huge else fabs (norm2 (vsub (mv P.A x) P.b) - par.eps2)
-  let mgG := match maxCoeff (slack P x) with
-    | none => huge
-    | some mx => fabs (mx - par.eps2)
+  let mgA := if P.A.isEmpty then huge
+    else relTo (norm2 (vsub (mv P.A x) P.b) - par.eps2) (norm2 (slack ⟨[], [], [], [], (absP P).A, (absP P).b⟩ (absV x)))
+  let mgG := if P.G.isEmpty then huge else rowsMargin P x par.eps2
   let rd := norm2 st.rdual
   let rp := norm2 st.rprim
-  let mgS := if feas then fabs (cmax3 st.eta rd rp - par.epsilon) else huge
+  let mgS := if feas then relTo (cmax3 st.eta rd rp - par.epsilon) (sc.eta + sc.rd + sc.rp) else huge
   s!"D {showBool feas} {hexOfFloat (fmin mgA mgG)} {hexOfFloat st.eta} {hexOfFloat rd} {hexOfFloat rp} {hexOfFloat st.fx} {status.code} {hexOfFloat mgS}"
 
 structure Ctx where
@@ -103,7 +139,7 @@ structure Run where
   k : Nat := 0
   prev : St F
   cur : Option (List F × List F × List F × St F) := none
-  pending : Option (Status × List F × St F) := none
+  pending : Option (Status × List F × St F × Scales) := none
   last : Status
   out : List String := []
 
@@ -119,7 +155,8 @@ def stepRec (c : Ctx) (r : Run) (rec : Rec) (nextIsS : Bool) : Run :=
     else
       -- no step was logged: the linear system was unstable or stage 1 failed; `done` on the current state
       let status := done P par x st
-      { r with k := r.k + 1, cur := none, pending := some (status, x, st), last := status, out := line :: r.out }
+      { r with k := r.k + 1, cur := none, pending := some (status, x, st, scalesAt P par.miu x u v), last := status,
+               out := line :: r.out }
   | .S dx du dv =>
     match r.cur with
     | none => { r with out := "S bad" :: r.out }
@@ -129,34 +166,37 @@ def stepRec (c : Ctx) (r : Run) (rec : Rec) (nextIsS : Bool) : Run :=
       let s1 := stage1 P par.beta x dx par.maxLs sInit
       let mg1 := stage1Margin P par.beta x dx par.maxLs sInit huge
       let r0 := residual st
+      let sc0 := scalesAt P par.miu x u v
       let (s2, mg2) := match s1 with
         | none => (none, huge)
         | some s =>
           ((stage2 P c.mufx par.miu par.alpha par.beta x u v dx du dv r0 par.maxLs s st).1,
-           stage2Margin P c.mufx par.miu par.alpha par.beta x u v dx du dv r0 par.maxLs s st huge)
+           stage2Margin P c.mufx par.miu par.alpha par.beta x u v dx du dv r0 sc0.res par.maxLs s st huge)
       let outcome := iterate P c.mufx par x u v st true dx du dv
-      let mgK (st2 : St F) : F :=
-        fabs (cmax3 (st.eta - st2.eta) (norm2 st.rdual - norm2 st2.rdual) (norm2 st.rprim - norm2 st2.rprim) - par.epsilon0)
+      let mgK (st2 : St F) (sc2 : Scales) : F :=
+        relTo (cmax3 (st.eta - st2.eta) (norm2 st.rdual - norm2 st2.rdual) (norm2 st.rprim - norm2 st2.rprim) - par.epsilon0)
+          (sc0.eta + sc0.rd + sc0.rp + sc2.eta + sc2.rd + sc2.rp)
       match outcome with
-      | .next _ _ _ st' =>
-        let line := s!"S {hexOfFloat smax} {showOptF s1} {hexOfFloat mg1} {showOptF s2} {hexOfFloat mg2} 0 {hexOfFloat (mgK st')}"
+      | .next x' u' v' st' =>
+        let line := s!"S {hexOfFloat smax} {showOptF s1} {hexOfFloat mg1} {showOptF s2} {hexOfFloat mg2} 0 {hexOfFloat (mgK st' (scalesAt P par.miu x' u' v'))}"
         { r with cur := none, pending := none, prev := st', last := .maxIters, out := line :: r.out }
-      | .stop status x' _ _ st' =>
+      | .stop status x' u' v' st' =>
         let kind := if status == .failed then 2 else 1
+        let sc' := scalesAt P par.miu x' u' v'
         let mk := match s2 with
-          | some _ => mgK st'
+          | some _ => mgK st' sc'
           | none => huge
         let line := s!"S {hexOfFloat smax} {showOptF s1} {hexOfFloat mg1} {showOptF s2} {hexOfFloat mg2} {kind} {hexOfFloat mk}"
-        { r with cur := none, pending := some (status, x', st'), prev := st', last := status, out := line :: r.out }
+        { r with cur := none, pending := some (status, x', st', sc'), prev := st', last := status, out := line :: r.out }
   | .D xd ud vd =>
     match r.pending with
-    | some (status, xm, stm) =>
-      { r with pending := none, out := doneLine P par xm stm status :: r.out }
+    | some (status, xm, stm, scm) =>
+      { r with pending := none, out := doneLine P par xm stm scm status :: r.out }
     | none =>
       -- the model expected the loop to go on: decide on the logged point
       let st := update P c.mufx par.miu xd ud vd r.prev
       let status := done P par xd st
-      { r with last := status, out := doneLine P par xd st status :: r.out }
+      { r with last := status, out := doneLine P par xd st (scalesAt P par.miu xd ud vd) status :: r.out }
   | .Z x v =>
     let (status, st) := noineq P c.mufx par x v
     let valid := FinTest.isFin (residual st)
@@ -168,7 +208,8 @@ def stepRec (c : Ctx) (r : Run) (rec : Rec) (nextIsS : Bool) : Run :=
     let rr := vneg P.c ++ P.b
     let lhs := sumsq (vsub l rr)
     let rhs := par.eps2 * par.eps2 * cmin (sumsq l) (sumsq rr)
-    let mgA := fabs (Float.sqrt lhs - Float.sqrt rhs)
+    let sc := scalesAt P par.miu x [] v
+    let mgA := relTo (Float.sqrt lhs - Float.sqrt rhs) (sc.rd + sc.rp)
     let line := s!"Z {showBool valid} {showBool aprox} {hexOfFloat mgA} {hexOfFloat st.fx} {showFloats st.rdual} {showFloats st.rprim} {status.code}"
     { r with last := status, out := line :: r.out }
 
@@ -243,9 +284,7 @@ def handle : Toks → Option String
     else
       guard (x0.length = n)
       let started := start P' mufx par.miu nanv x0
-      let mgB := match maxCoeff (slack P' x0) with
-        | some mx => fabs mx
-        | none => huge
+      let mgB := rowsMargin P' x0 0
       let bline := s!"B {showBool started.isSome} {hexOfFloat mgB}"
       let uline := match recs with
         | Rec.I .. :: _ =>
